@@ -1,6 +1,7 @@
 (* Bridge: the motion-vector kernels of h263/src/types.rs (impl HalfPel) as translated from the Rust
    source on this run (gen/GenKTypes.v) equal the hand-written model's (model/Recon.v), without panics. *)
 From H263V Require Import base.Prelude base.Checked model.Types model.Syntax model.Recon gen.GenKTypes bridge.KTactics.
+#[local] Hint Unfold into_lerp_parameters invert is_mv_within_range average_sum_of_mvs median_of hadd : kmodel.
 
 Lemma bridge_k_into_lerp_parameters h :
   -32767 <= h <= 32767 -> k_into_lerp_parameters h = Ok (into_lerp_parameters h).
@@ -19,7 +20,7 @@ Qed.
 
 Lemma bridge_k_is_mv_within_range h r :
   -32767 <= r <= 32767 -> k_is_mv_within_range h r = Ok (is_mv_within_range h r).
-Proof. intros Hr. unfold k_is_mv_within_range, is_mv_within_range. ksteps. subst. reflexivity. Qed.
+Proof. intros Hr. unfold k_is_mv_within_range, is_mv_within_range. ksteps. kfin. Qed.
 
 Lemma bridge_k_average_sum_of_mvs s :
   -32768 <= s <= 32000 -> k_average_sum_of_mvs s = Ok (average_sum_of_mvs s).
